@@ -50,9 +50,9 @@ type CallRepl struct {
 
 type Config struct {
 	Packages   []string          `json:"packages"`
-	KeepSync   []string          `json:"keep_sync"`   // file base names whose sync import is left alone
-	SkipFiles  []string          `json:"skip_files"`  // file base names not rewritten at all
-	OnlyFiles  []string          `json:"only_files"`  // if set: only these file base names are rewritten
+	KeepSync   []string          `json:"keep_sync"`  // file base names whose sync import is left alone
+	SkipFiles  []string          `json:"skip_files"` // file base names not rewritten at all
+	OnlyFiles  []string          `json:"only_files"` // if set: only these file base names are rewritten
 	Points     []CallPoint       `json:"points"`
 	Replace    []CallRepl        `json:"replace"`
 	ImportRepl map[string]string `json:"import_replace"` // import path -> replacement path (per all rewritten files)
